@@ -268,6 +268,27 @@ theorem exchange_accepts_only_matching (net : Net) (reqId : Nat) (q : Question) 
       rw [hu] at h
       exact ⟨Or.inr (key tcp h).1, (key tcp h).2⟩
 
+/-- **mismatch_never_accepted_whatever_flags.** A message received over UDP that does not match
+the query is never the result of `Exchange`, whatever its TC bit says and whatever the network
+mode (UDP-only included): the exchange goes on over TCP and the verdict is the TCP one.  In
+particular truncation is looked at only after validation. -/
+theorem mismatch_never_accepted_whatever_flags (net : Net) (reqId : Nat) (q : Question) (m : Msg)
+    (tcp : Wire) (hn : net ≠ .tcp) (hv : validate reqId q m ≠ .ok) :
+    exchange net reqId q (.msg m) tcp = (exchangeNet reqId q tcp, true) := by
+  unfold exchange
+  simp [hn, exchangeNet, hv]
+
+/-- Non-vacuity: a truncated reply with a wrong id to a UDP-only upstream is not accepted (TCP is
+closed: network error; TCP sends the same: other error), a truncated matching one is, and for a
+UDP-then-TCP upstream truncation of a matching reply moves on to TCP. -/
+example : (exchange .udp 7 ⟨[97, 98, 46], 1⟩ (.msg ⟨8, [⟨[97, 98, 46], 1⟩], true, 1⟩) .netErr).1 = .netErr ∧
+    (exchange .udp 7 ⟨[97, 98, 46], 1⟩ (.msg ⟨8, [⟨[97, 98, 46], 1⟩], true, 1⟩)
+      (.msg ⟨8, [⟨[97, 98, 46], 1⟩], true, 2⟩)).1 = .other ∧
+    (exchange .udp 7 ⟨[97, 98, 46], 1⟩ (.msg ⟨7, [⟨[97, 98, 46], 1⟩], true, 1⟩) .netErr) =
+      (.ok ⟨7, [⟨[97, 98, 46], 1⟩], true, 1⟩, false) ∧
+    (exchange .any 7 ⟨[97, 98, 46], 1⟩ (.msg ⟨7, [⟨[97, 98, 46], 1⟩], true, 1⟩)
+      (.msg ⟨7, [⟨[97, 98, 46], 1⟩], false, 2⟩)) = (.ok ⟨7, [⟨[97, 98, 46], 1⟩], false, 2⟩, true) := by decide
+
 /-- **answer_is_matching_reply.** End to end with plain upstreams: if the client is answered,
 the answer is a message that the asked upstream sent on one of its transports and that matches
 the query's id, question name (up to case) and type. -/
@@ -329,6 +350,7 @@ example : (readMsgWholeBuffer (exCut ++ exReq.drop 17) 17).map (validate 7 ⟨[9
 #print axioms no_fallbacks_never_out
 #print axioms reply_validation
 #print axioms exchange_accepts_only_matching
+#print axioms mismatch_never_accepted_whatever_flags
 #print axioms answer_is_matching_reply
 #print axioms reply_from_own_bytes
 #print axioms residue_counterexample
